@@ -11,16 +11,17 @@ import (
 	"golang.org/x/tools/go/ssa/ssautil"
 )
 
-// CallGraph returns the call graph of the loaded program: CHA in the quick
-// tier, VTA seeded with CHA in the thorough tier.
+// CallGraph returns the call graph of the loaded program: VTA seeded with CHA.
 func (c *Ctx) CallGraph() *callgraph.Graph {
 	if c.cg != nil {
 		return c.cg
 	}
 	g := cha.CallGraph(c.Prog)
-	if c.Tier == "thorough" {
-		g = vta.CallGraph(ssautil.AllFunctions(c.Prog), g)
-	}
+	// VTA resolves calls through function values by flow instead of by
+	// signature, which removes most of CHA's spurious edges (iterator
+	// bodies, callbacks). It is sound for whole programs; we run it on the
+	// module plus its dependencies.
+	g = vta.CallGraph(ssautil.AllFunctions(c.Prog), g)
 	c.cg = g
 	return g
 }
@@ -52,6 +53,32 @@ func (c *Ctx) Reachable(roots []*ssa.Function, descend func(*ssa.Function) bool)
 		// creation as a potential call
 		for _, an := range fn.AnonFuncs {
 			next = append(next, an)
+		}
+		// Callbacks through code we do not descend into (the standard
+		// library): a function value that is mentioned, and the methods of
+		// a type that is converted to an interface, may be called.
+		if len(fn.Blocks) > 0 && FuncInModule(fn) {
+			var ops [12]*ssa.Value
+			for _, b := range fn.Blocks {
+				for _, in := range b.Instrs {
+					for _, op := range in.Operands(ops[:0]) {
+						if f, ok := (*op).(*ssa.Function); ok && f != nil {
+							if call, isCall := in.(ssa.CallInstruction); isCall && call.Common().Value == *op {
+								continue // a direct call: already an edge
+							}
+							next = append(next, f)
+						}
+					}
+					if mi, ok := in.(*ssa.MakeInterface); ok {
+						ms := c.Prog.MethodSets.MethodSet(mi.X.Type())
+						for i := 0; i < ms.Len(); i++ {
+							if m := c.Prog.MethodValue(ms.At(i)); m != nil {
+								next = append(next, m)
+							}
+						}
+					}
+				}
+			}
 		}
 		sort.Slice(next, func(i, j int) bool { return next[i].String() < next[j].String() })
 		for _, callee := range next {
